@@ -1272,6 +1272,15 @@ def fault_base_scenarios():
     c2 = conn(2, 2, 4000, 500, accept_at=30010, connect_at=30500)
     c2["client"] = "c1"; c2["into"] = "a1"; c2["cport"] = 4051
     S.append(("S8-reuse", {"topo": topo(False), "acceptors": acc, "ctl": [], "conns": [c1, c2]}, ["c1", "a1"]))
+    # a lone segment is dropped (twice) with nothing else in flight: it is re-sent from the socket's 100 ms timer, whose
+    # expiry may be posted when the socket is closed / destroyed
+    c9 = conn(1, 1, 300, 200)
+    c9["c2a"]["sizes"] = [300]
+    S.append(("S9-lone-drop", {"topo": topo(False), "acceptors": acc,
+                               "ctl": [{"conn": 1, "dir": "c2a", "seq": 0, "nth": 1, "drop": True},
+                                       {"conn": 1, "dir": "c2a", "seq": 0, "nth": 2, "drop": True},
+                                       {"conn": 1, "dir": "a2c", "seq": 0, "nth": 1, "drop": True}],
+                               "conns": [c9]}, ["c1", "a1"]))
     return S
 
 
@@ -1333,11 +1342,12 @@ def fault_enum(ctx, owner):
     q = ctx.tier == "quick"
     rng = random.Random(ctx.seed)
     whats = ["close", "cancel", "destroy"]
-    budget = 2500 if q else 40000
+    budget = 14000 if q else 400000
     scen = [("tcp", n, p, objs) for (n, p, objs) in fault_base_scenarios()]
     scen.append(("udp", "S5-udp", udp_fault_base(rng), ["s1", "s2", "r1", "r2"]))
     # 1. boundaries of every base run
     per = budget // len(scen)
+    sampled = False
     progs = {"tcp": [], "udp": []}
     meta = {"tcp": [], "udp": []}
     for proto, name, prog, objs in scen:
@@ -1357,13 +1367,14 @@ def fault_enum(ctx, owner):
         combos = [(k, o, w) for k in range(1, K + 1) for o in objs for w in whats] + [(k, "", "throw") for k in range(1, K + 1)]
         if len(combos) > per:
             combos = rng.sample(combos, per)
+            sampled = True
         ctx.notes.setdefault("boundaries", {})[name] = K
         for (k, o, w) in combos:
             pr = dict(prog)
             pr["fault"] = {"k": k, "obj": o, "what": w}
             progs[proto].append(pr)
             meta[proto].append((name, k, o, w))
-    ctx.exhaustive = not q
+    ctx.exhaustive = not sampled   # every boundary x object x intervention of every base scenario was executed
     for proto in ("tcp", "udp"):
         f = ctx.path("fault_%s.ndjson" % proto)
         with open(f, "w") as fh:
